@@ -228,7 +228,14 @@ def analyse(fl, spec):
                     continue
                 g = guards.get(key, set())
                 if key in named:
-                    starts = list(named[key])
+                    # an assignment that itself sits on the not-None edge of its source copies a value known not to be None
+                    starts = []
+                    for s_ in named[key]:
+                        sk = spec2.producer_key(s_.stmt.value)
+                        gs = guards.get(sk, set()) if sk is not None else set()
+                        if gs and s_ not in cfg.reach(cfg.entry, avoid=gs):
+                            continue
+                        starts.append(s_)
                     other_defs = {d for d in cfg.nodes if key in fl._defs.get(d, {}) and d not in named[key]}
                     bad = False
                     for s in starts:
